@@ -1,6 +1,107 @@
-//! Job kinds of this property (see lib/prop_*.py). Returns None for kinds it does not know.
-use serde_json::Value;
+//! Job kinds of property C08 (see lib/prop_c08.py). Returns None for kinds it does not know.
+//!
+//! c08_parse : {"patterns":[p,..]} -> {"asts":[AST | {"k":"syntax_error","s":msg} | {"k":"parse_panic"}]}
+//!             the abstract syntax trees as the crate's own parser sees them (scnr::verif::parse)
+//! c08_class : {"patterns":[p,..]} -> {"res":[{"p":p,"ast":AST,"build":class,"error":msg,
+//!                                             "ranges":[[lo,hi],..]|null,"tokens":n,"anomalies":[..]}]}
+//!             for every pattern the one-pattern scanner is built and ONE haystack that contains
+//!             every Unicode scalar value exactly once, in increasing order, is scanned from start
+//!             to end; `ranges` is the set of scalar values covered by a reported token (sorted,
+//!             inclusive, merged over the surrogate gap). A token that does not cover exactly one
+//!             character of the haystack is reported in `anomalies` (a class leaf consumes one
+//!             character).
+use std::panic::{catch_unwind, AssertUnwindSafe};
+use std::sync::LazyLock;
 
-pub fn run(_kind: &str, _job: &Value) -> Option<Value> {
-    None
+use scnr::verif;
+use scnr::{Pattern, ScannerMode};
+use serde_json::{json, Value};
+
+/// Every scalar value once, ascending.
+static ALL_SCALARS: LazyLock<String> = LazyLock::new(|| {
+    let mut s = String::with_capacity(4_400_000);
+    for cp in 0..=0x10FFFFu32 {
+        if let Some(c) = char::from_u32(cp) {
+            s.push(c);
+        }
+    }
+    s
+});
+
+fn parse_one(p: &str) -> Value {
+    match catch_unwind(|| verif::parse(p)) {
+        Ok(Ok(j)) => serde_json::from_str(&j).unwrap_or_else(|_| json!({"k":"bad_json"})),
+        Ok(Err(e)) => json!({"k":"syntax_error","s":e}),
+        Err(_) => json!({"k":"parse_panic"}),
+    }
+}
+
+fn push_cp(ranges: &mut Vec<(u32, u32)>, cp: u32) {
+    match ranges.last_mut() {
+        Some(r) if r.1 + 1 == cp || (r.1 == 0xD7FF && cp == 0xE000) => r.1 = cp,
+        _ => ranges.push((cp, cp)),
+    }
+}
+
+fn class_one(p: &str) -> Value {
+    let ast = parse_one(p);
+    let modes = vec![ScannerMode::new("L", vec![Pattern::new(p.to_string(), 0)], vec![])];
+    let (scanner, class, msg) = crate::build(&modes, false);
+    let Some(scanner) = scanner else {
+        return json!({"p": p, "ast": ast, "build": class, "error": msg, "ranges": Value::Null});
+    };
+    let text: &str = &ALL_SCALARS;
+    let mut ranges: Vec<(u32, u32)> = Vec::new();
+    let mut anomalies: Vec<Value> = Vec::new();
+    let mut tokens = 0u64;
+    let r = catch_unwind(AssertUnwindSafe(|| {
+        let mut last_end = 0usize;
+        for m in scanner.find_iter(text) {
+            tokens += 1;
+            let (s, e) = (m.start(), m.end());
+            let ok = s >= last_end
+                && e <= text.len()
+                && text.is_char_boundary(s)
+                && text.is_char_boundary(e)
+                && s < e
+                && text[s..e].chars().count() == 1;
+            if !ok {
+                if anomalies.len() < 5 {
+                    anomalies.push(json!({"start": s, "end": e, "token_type": m.token_type()}));
+                }
+                if !(text.is_char_boundary(s) && text.is_char_boundary(e) && s < e && e <= text.len()) {
+                    continue;
+                }
+            }
+            for c in text[s..e].chars() {
+                push_cp(&mut ranges, c as u32);
+            }
+            last_end = e;
+        }
+    }));
+    if let Err(pn) = r {
+        return json!({"p": p, "ast": ast, "build": "ok", "ranges": Value::Null,
+                      "scan_panic": crate::panic_message(pn)});
+    }
+    json!({"p": p, "ast": ast, "build": "ok", "ranges": ranges, "tokens": tokens, "anomalies": anomalies})
+}
+
+pub fn run(kind: &str, job: &Value) -> Option<Value> {
+    match kind {
+        "c08_parse" => {
+            let asts: Vec<Value> = job["patterns"]
+                .as_array()
+                .map(|a| a.iter().map(|p| parse_one(p.as_str().unwrap_or(""))).collect())
+                .unwrap_or_default();
+            Some(json!({"asts": asts}))
+        }
+        "c08_class" => {
+            let res: Vec<Value> = job["patterns"]
+                .as_array()
+                .map(|a| a.iter().map(|p| class_one(p.as_str().unwrap_or(""))).collect())
+                .unwrap_or_default();
+            Some(json!({"res": res}))
+        }
+        _ => None,
+    }
 }
